@@ -22,6 +22,7 @@ META = {
                     "C02 contract on bin1d_vec stays installed underneath"],
     "deciding": ["lookup:get_masked", "lookup:get_index_of", "agree:filter_spatial", "agree:spatial_counts", "invariant:region"],
 }
+META["added"] = 'Added while building / after seeding rounds: union-of-readings model for midpoint-derived origins; odd spacings (0.04, 0.07, 0.125, 0.15, 0.0125, 0.6, 2, 0.03) and anchors; structured degenerate shapes (single row / column with unequal anchors); model-decided batch lookups; catalogs already bound to another region before filter_spatial; masked_region; get_bbox.'
 MANIFEST = {
     "technique": "invariant on live CartesianGrid2D objects after construction + boundary recorder on seven lookup entry points compared with an exact-comparison lattice reference model; cross-entry agreement checks; bin1d_vec contract active underneath",
     "level_text": "For each generated or shipped region the object invariant (mask/index-map bijection, edge arrays) is evaluated once and ~3000 boundary-adjacent probe points are pushed through masking, index lookup (batch and point by point), spatial filtering and per-cell counting; every answer is compared with the unique cell found by exact comparison against the lattice edges (either neighbour accepted only inside the documented band), and the entry points must agree with each other.",
